@@ -91,6 +91,9 @@ func (x *Exec) resolveType(env *SpecEnv, text string) types.Type {
 	case "float64":
 		return types.Typ[types.Float64]
 	}
+	if strings.HasPrefix(text, "set[") && strings.HasSuffix(text, "]") {
+		return setTypeOf(x.resolveType(env, text[4:len(text)-1]))
+	}
 	if strings.HasPrefix(text, "[]") {
 		return types.NewSlice(x.resolveType(env, text[2:]))
 	}
@@ -740,6 +743,22 @@ func (x *Exec) evalCall(env *SpecEnv, e ECall) Val {
 		return Val{T: mkIte(lt, b.T, a.T), Typ: a.Typ}
 	}
 	switch e.Fun {
+	case "has", "add", "del":
+		// ghost sets: membership, insertion, removal
+		s := x.evalVal(env, e.Args[0])
+		el, ok := isSetType(s.Typ)
+		if !ok {
+			panic(specErr("%s: first argument is not a set", e.Fun))
+		}
+		k := x.coerce(x.evalVal(env, e.Args[1]), el)
+		switch e.Fun {
+		case "has":
+			return Val{T: Term{app("select", s.T, k.T), "Bool"}, Typ: types.Typ[types.Bool]}
+		case "add":
+			return Val{T: mkStore(s.T, k.T, tTrue), Typ: s.Typ}
+		default:
+			return Val{T: mkStore(s.T, k.T, tFalse), Typ: s.Typ}
+		}
 	case "fresh":
 		// fresh(x): the object / backing array x refers to was allocated after the
 		// function under contract was entered
@@ -899,6 +918,14 @@ func (x *Exec) evalMethod(env *SpecEnv, e EMethod) Val {
 		if _, bound := env.vars[id.Name]; !bound && !x.isLocalName(env, id.Name) && env.pkg != nil {
 			for _, imp := range append(env.pkg.Imports(), env.pkg) {
 				if imp.Name() == id.Name {
+					if tn, ok := imp.Scope().Lookup(e.Name).(*types.TypeName); ok && len(e.Args) == 1 {
+						// conversion to a named type of another package: pkg.T(x)
+						v := x.evalVal(env, e.Args[0])
+						if v.Const != nil || v.IsNil {
+							return x.coerce(v, tn.Type())
+						}
+						return Val{T: x.convertTerm(env.cur, v.T, v.Typ, tn.Type()), Typ: tn.Type()}
+					}
 					if fn := x.findPkgFunc(imp, e.Name); fn != nil && fn.Blocks != nil {
 						var args []Val
 						for i, a := range e.Args {
